@@ -3,7 +3,6 @@ property oracle (true pairs only / nearly all pairs / held-out error / drift) me
 import json
 import math
 import warnings
-from fractions import Fraction
 
 import numpy as np
 
@@ -50,8 +49,10 @@ def enc_qlist(xs):
 
 
 def enc_input(case, delta):
-    return ([1 if case["linear"] else 0] + to_dy(case["tbin"]) + to_dy(delta) +
+    body = (to_dy(case["tbin"]) + to_dy(delta) +
             enc_qlist(case["tsa"]) + enc_qlist(case["tsb"]) + enc_qlist(case["queries"]))
+    ks = [to_dy(v)[1] for v in [case["tbin"], delta] + case["tsa"] + case["tsb"] + case["queries"]]
+    return [1 if case["linear"] else 0, max([0] + ks)] + body
 
 
 def parse_model(out, na, nq):
@@ -341,8 +342,10 @@ def oracle(case, res, meas):
     for i in range(nh, len(fa)):
         x = case["queries"][i]
         err = abs(fa[i] - (x * (1 + d) + off))
-        meas["max_err_s_at_matched_%s" % key] = max(meas.get("max_err_s_at_matched_%s" % key, 0.0), err)
-        if err > HELD_TOL:
+        inside = lo_x <= x <= hi_x
+        mk = "max_err_s_at_train_ends_and_middle_%s_%s" % (key, "inside" if inside else "extrapolated")
+        meas[mk] = max(meas.get(mk, 0.0), err)
+        if (inside or case["linear"]) and err > HELD_TOL:
             bad.append(("fitted map is off by %.3g s at t=%.6f" % (err, x), {"kind": "map_error"}))
             break
     return bad
